@@ -35,6 +35,45 @@ pub struct BuildCase {
     pub mutation: Option<Mutation>,
     /// C17: node labels.
     pub labels: Vec<String>,
+    /// C14: sequence of sequential walks performed on the *same* graph value
+    /// (empty = the canonical sequence).
+    #[serde(default)]
+    pub walks: Vec<Walk>,
+}
+
+/// One sequential walk over the graph (C14).
+#[derive(Clone, Debug, PartialEq, Eq, Hash, Serialize, Deserialize)]
+pub enum Walk {
+    Iter,
+    IterRev,
+    Topo,
+    MapFull,
+    /// `map()` iterator polled this many times (< n), then dropped.
+    MapPartial(usize),
+    Fold,
+    ForEach,
+    TryFoldOk,
+    /// `try_fold` whose closure fails at this (0-based) invocation.
+    TryFoldFail(usize),
+    TryForEachOk,
+    TryForEachFail(usize),
+    Insertion,
+}
+
+pub fn canonical_walks(fail_pos: usize) -> Vec<Walk> {
+    vec![
+        Walk::Iter,
+        Walk::IterRev,
+        Walk::Topo,
+        Walk::MapFull,
+        Walk::Fold,
+        Walk::ForEach,
+        Walk::TryFoldOk,
+        Walk::TryForEachOk,
+        Walk::Insertion,
+        Walk::TryFoldFail(fail_pos),
+        Walk::TryForEachFail(fail_pos),
+    ]
 }
 
 #[derive(Clone, Debug, PartialEq, Eq, Hash, Serialize, Deserialize)]
@@ -206,11 +245,33 @@ pub fn decode_build_case(t: &mut Tape, x: &mut Tape, max_n: usize, cap: Option<u
                 .collect::<String>()
         })
         .collect();
+    let walks: Vec<Walk> = if n == 0 || x.chance(1, 3) {
+        vec![]
+    } else {
+        let len = 2 + x.below(8);
+        (0..len)
+            .map(|_| match x.below(13) {
+                0 => Walk::Iter,
+                1 => Walk::IterRev,
+                2 => Walk::Topo,
+                3 => Walk::MapFull,
+                4 | 5 => Walk::MapPartial(x.below(n)),
+                6 => Walk::Fold,
+                7 => Walk::ForEach,
+                8 => Walk::TryFoldOk,
+                9 => Walk::TryFoldFail(x.below(n)),
+                10 => Walk::TryForEachOk,
+                11 => Walk::TryForEachFail(x.below(n)),
+                _ => Walk::Insertion,
+            })
+            .collect()
+    };
     BuildCase {
         spec,
         fail_pos,
         mutation,
         labels,
+        walks,
     }
 }
 
@@ -576,103 +637,162 @@ pub fn check_c14(case: &BuildCase, b: &mut Built, f: &BuildFacts) -> Vec<Violati
     if g.graph.node_count() != n {
         return out;
     }
+    let walks = if case.walks.is_empty() {
+        canonical_walks(case.fail_pos)
+    } else {
+        case.walks.clone()
+    };
     let r = catch_unwind(AssertUnwindSafe(|| {
         let mut out = vec![];
-        let ids: Vec<usize> = g.iter().map(|f| f.id).collect();
-        check_order(&mut out, "iter", &ids, f, false);
-        let ids: Vec<usize> = g.iter_rev().map(|f| f.id).collect();
-        check_order(&mut out, "iter_rev", &ids, f, true);
-        let mut topo = g.toposort();
-        let mut ids = vec![];
-        while let Some(id) = topo.next(&g.graph) {
-            ids.push(g.graph[id].id);
-            if ids.len() > n + 1 {
-                break;
-            }
-        }
-        check_order(&mut out, "toposort", &ids, f, false);
-        let ids: Vec<usize> = g.map(|f| f.id).collect();
-        check_order(&mut out, "map", &ids, f, false);
-        let ids: Vec<usize> = g.fold(vec![], |mut acc, f| {
-            acc.push(f.id);
-            acc
-        });
-        check_order(&mut out, "fold", &ids, f, false);
-        let mut ids = vec![];
-        g.for_each(|f| ids.push(f.id));
-        check_order(&mut out, "for_each", &ids, f, false);
-        let r: Result<Vec<usize>, ()> = g.try_fold(vec![], |mut acc, f| {
-            acc.push(f.id);
-            Ok(acc)
-        });
-        check_order(&mut out, "try_fold", &r.unwrap(), f, false);
-        let mut ids = vec![];
-        let r: Result<(), ()> = g.try_for_each(|f| {
-            ids.push(f.id);
-            Ok(())
-        });
-        if r.is_err() {
-            out.push(v("C14", "spurious-error", "try_for_each returned Err without a failing closure".into()));
-        }
-        check_order(&mut out, "try_for_each", &ids, f, false);
-        // insertion order
         let exp: Vec<usize> = (0..n).collect();
-        let ids: Vec<usize> = g.iter_insertion().map(|f| f.id).collect();
-        if ids != exp {
-            out.push(v("C14", "insertion-order", format!("iter_insertion gave {ids:?}")));
-        }
-        let ids: Vec<usize> = g.iter_insertion_mut().map(|f| f.id).collect();
-        if ids != exp {
-            out.push(v("C14", "insertion-order", format!("iter_insertion_mut gave {ids:?}")));
-        }
-        let ids: Vec<(usize, usize)> = g
-            .iter_insertion_with_indices()
-            .map(|(i, f)| (i.index(), f.id))
-            .collect();
-        if ids != exp.iter().map(|i| (*i, *i)).collect::<Vec<_>>() {
-            out.push(v(
-                "C14",
-                "insertion-order",
-                format!("iter_insertion_with_indices gave {ids:?}"),
-            ));
-        }
-        // failing position
-        if n > 0 {
-            let p = case.fail_pos.min(n - 1);
-            let mut calls = 0usize;
-            let mut failed_id = None;
-            let r: Result<Vec<usize>, usize> = g.try_fold(vec![], |mut acc, f| {
-                calls += 1;
-                if calls == p + 1 {
-                    failed_id = Some(f.id);
-                    return Err(f.id);
+        for (wi, w) in walks.iter().enumerate() {
+            let at = format!("walk #{wi} {w:?}");
+            match w {
+                Walk::Iter => {
+                    let ids: Vec<usize> = g.iter().map(|f| f.id).collect();
+                    check_order(&mut out, &format!("{at}: iter"), &ids, f, false);
                 }
-                acc.push(f.id);
-                Ok(acc)
-            });
-            if r != Err(failed_id.unwrap_or(usize::MAX)) || calls != p + 1 {
-                out.push(v(
-                    "C14",
-                    "try_fold-after-error",
-                    format!("try_fold failing at call {} returned {r:?} after {calls} calls", p + 1),
-                ));
+                Walk::IterRev => {
+                    let ids: Vec<usize> = g.iter_rev().map(|f| f.id).collect();
+                    check_order(&mut out, &format!("{at}: iter_rev"), &ids, f, true);
+                }
+                Walk::Topo => {
+                    let mut topo = g.toposort();
+                    let mut ids = vec![];
+                    while let Some(id) = topo.next(&g.graph) {
+                        ids.push(g.graph[id].id);
+                        if ids.len() > n + 1 {
+                            break;
+                        }
+                    }
+                    check_order(&mut out, &format!("{at}: toposort"), &ids, f, false);
+                }
+                Walk::MapFull => {
+                    let ids: Vec<usize> = g.map(|f| f.id).collect();
+                    check_order(&mut out, &format!("{at}: map"), &ids, f, false);
+                }
+                Walk::MapPartial(k) => {
+                    if n > 0 {
+                        let k = (*k).min(n - 1);
+                        let ids: Vec<usize> = g.map(|f| f.id).take(k).collect();
+                        // a prefix of some valid order: distinct ids, no edge into an earlier one
+                        let mut seen = vec![false; n];
+                        for &i in &ids {
+                            if i >= n || seen[i] {
+                                out.push(v("C14", "not-a-permutation", format!("{at}: map prefix {ids:?}")));
+                                break;
+                            }
+                            for e in &f.built {
+                                if e.1 == i && !seen[e.0] {
+                                    out.push(v(
+                                        "C14",
+                                        "order-violates-edge",
+                                        format!("{at}: map prefix {ids:?} against built edge {}->{}", e.0, e.1),
+                                    ));
+                                }
+                            }
+                            seen[i] = true;
+                        }
+                    }
+                }
+                Walk::Fold => {
+                    let ids: Vec<usize> = g.fold(vec![], |mut acc, f| {
+                        acc.push(f.id);
+                        acc
+                    });
+                    check_order(&mut out, &format!("{at}: fold"), &ids, f, false);
+                }
+                Walk::ForEach => {
+                    let mut ids = vec![];
+                    g.for_each(|f| ids.push(f.id));
+                    check_order(&mut out, &format!("{at}: for_each"), &ids, f, false);
+                }
+                Walk::TryFoldOk => {
+                    let r: Result<Vec<usize>, ()> = g.try_fold(vec![], |mut acc, f| {
+                        acc.push(f.id);
+                        Ok(acc)
+                    });
+                    match r {
+                        Ok(ids) => check_order(&mut out, &format!("{at}: try_fold"), &ids, f, false),
+                        Err(()) => out.push(v("C14", "spurious-error", format!("{at}: try_fold returned Err without a failing closure"))),
+                    }
+                }
+                Walk::TryForEachOk => {
+                    let mut ids = vec![];
+                    let r: Result<(), ()> = g.try_for_each(|f| {
+                        ids.push(f.id);
+                        Ok(())
+                    });
+                    if r.is_err() {
+                        out.push(v("C14", "spurious-error", format!("{at}: try_for_each returned Err without a failing closure")));
+                    }
+                    check_order(&mut out, &format!("{at}: try_for_each"), &ids, f, false);
+                }
+                Walk::Insertion => {
+                    let ids: Vec<usize> = g.iter_insertion().map(|f| f.id).collect();
+                    if ids != exp {
+                        out.push(v("C14", "insertion-order", format!("{at}: iter_insertion gave {ids:?}")));
+                    }
+                    let ids: Vec<usize> = g.iter_insertion_mut().map(|f| f.id).collect();
+                    if ids != exp {
+                        out.push(v("C14", "insertion-order", format!("{at}: iter_insertion_mut gave {ids:?}")));
+                    }
+                    let ids: Vec<(usize, usize)> = g
+                        .iter_insertion_with_indices()
+                        .map(|(i, f)| (i.index(), f.id))
+                        .collect();
+                    if ids != exp.iter().map(|i| (*i, *i)).collect::<Vec<_>>() {
+                        out.push(v("C14", "insertion-order", format!("{at}: iter_insertion_with_indices gave {ids:?}")));
+                    }
+                }
+                Walk::TryFoldFail(p) => {
+                    if n > 0 {
+                        let p = (*p).min(n - 1);
+                        let mut calls = 0usize;
+                        let mut failed_id = None;
+                        let r: Result<Vec<usize>, usize> = g.try_fold(vec![], |mut acc, f| {
+                            calls += 1;
+                            if calls == p + 1 {
+                                failed_id = Some(f.id);
+                                return Err(f.id);
+                            }
+                            acc.push(f.id);
+                            Ok(acc)
+                        });
+                        if r != Err(failed_id.unwrap_or(usize::MAX)) || calls != p + 1 {
+                            out.push(v(
+                                "C14",
+                                "try_fold-after-error",
+                                format!("{at}: try_fold failing at call {} returned {r:?} after {calls} calls", p + 1),
+                            ));
+                        }
+                    }
+                }
+                Walk::TryForEachFail(p) => {
+                    if n > 0 {
+                        let p = (*p).min(n - 1);
+                        let mut calls = 0usize;
+                        let mut failed_id = None;
+                        let r: Result<(), usize> = g.try_for_each(|f| {
+                            calls += 1;
+                            if calls == p + 1 {
+                                failed_id = Some(f.id);
+                                return Err(f.id);
+                            }
+                            Ok(())
+                        });
+                        if r != Err(failed_id.unwrap_or(usize::MAX)) || calls != p + 1 {
+                            out.push(v(
+                                "C14",
+                                "try_for_each-after-error",
+                                format!("{at}: try_for_each failing at call {} returned {r:?} after {calls} calls", p + 1),
+                            ));
+                        }
+                    }
+                }
             }
-            let mut calls = 0usize;
-            let mut failed_id = None;
-            let r: Result<(), usize> = g.try_for_each(|f| {
-                calls += 1;
-                if calls == p + 1 {
-                    failed_id = Some(f.id);
-                    return Err(f.id);
-                }
-                Ok(())
-            });
-            if r != Err(failed_id.unwrap_or(usize::MAX)) || calls != p + 1 {
-                out.push(v(
-                    "C14",
-                    "try_for_each-after-error",
-                    format!("try_for_each failing at call {} returned {r:?} after {calls} calls", p + 1),
-                ));
+            if !out.is_empty() {
+                break;
             }
         }
         out
@@ -1076,6 +1196,16 @@ pub fn exhaustive(prop: &str, max_n: usize, with_access: bool, workers: usize) -
                             fail_pos: if n == 0 { 0 } else { a % n },
                             mutation: None,
                             labels: (0..n).map(|i| format!("f{i}")).collect(),
+                            walks: if prop != "C14" || n == 0 {
+                                vec![]
+                            } else {
+                                match a % 4 {
+                                    0 => vec![],
+                                    1 => vec![Walk::MapPartial(1 % n), Walk::ForEach, Walk::Fold, Walk::MapFull, Walk::IterRev],
+                                    2 => vec![Walk::TryForEachFail(a % n), Walk::MapPartial(a % n), Walk::TryFoldOk, Walk::Iter, Walk::Topo],
+                                    _ => vec![Walk::TryFoldFail(a % n), Walk::MapFull, Walk::MapPartial(0), Walk::TryForEachOk, Walk::Insertion],
+                                }
+                            },
                         };
                         let ev = eval_build_case(prop, &case);
                         let k = builds.fetch_add(1, Ordering::Relaxed);
